@@ -645,6 +645,9 @@ def run(ctx):
     atg.run_stream(ctx, 'C04', 0, 0, 1500 if quick else 40000, kinds={'value', 'textelem'}, n_textelem=700 if quick else 20000)
     # 5. text on elements that carry attributes, whole pipeline (C04_expand_text_element): <name attr...>TEXT</name>
     atg.run_expand_stream(ctx, 'C04', 400 if quick else 10000, text_only=True)
+    # 6. markup.href: URL / e-mail like wrap texts on an `a` that receives the whole text (harness/href_util.py)
+    import href_util
+    href_util.run_c04(ctx, model)
     k = 0
     for (abbr, cfg, meta), r in zip(cases, impl):
         if meta.get('pieces') and meta['kind'].startswith(('wrap', 'attr', 'text')) and k < 8 and len(abbr) < 60:
@@ -706,6 +709,9 @@ def replay(ctx, obj):
         return atg.replay(rp)
     if rp.get('component') == 'C04expand':
         return atg.replay_expand(rp)
+    if rp.get('component') == 'C04href':
+        import href_util
+        return href_util.replay_c04(rp)
     r = impl_expand(rp['abbr'], rp['config'])
     bad = oracle(rp['abbr'], rp['config'], rp.get('meta'), r)
     print('expand(%r, %s) -> %r' % (rp['abbr'], canon_cfg(rp['config']), r))
